@@ -92,9 +92,17 @@ type simRetriever struct {
 	fired core.Counters
 }
 
-func (r *simRetriever) Retrieve(_ context.Context, res *retriever.Resource) ([]byte, error) {
+func (r *simRetriever) Retrieve(ctx context.Context, res *retriever.Resource) ([]byte, error) {
 	p := "//" + res.Repo + "/" + res.Filepath
 	r.s.Park("retrieve", p+"@"+res.Ref.Name())
+	// like the git retriever, a fetch that is still in flight when its context is
+	// cancelled gives up with the context's error
+	if err := ctx.Err(); err != nil {
+		r.mu.Lock()
+		r.fired.Inc("retrieve-cancelled")
+		r.mu.Unlock()
+		return nil, err
+	}
 	r.mu.Lock()
 	r.reads[p]++
 	r.mu.Unlock()
